@@ -63,6 +63,8 @@ def _child_main(mod, trace, tier, scratch_root):
     scratch = pathlib.Path(scratch_root) / f"{mod.NAME}-{os.getpid()}-{seed % 10**9}" / "w"
     scratch.mkdir(parents=True, exist_ok=True)
     os.chdir(scratch)
+    from . import h5digest
+    h5digest.SCRATCH = str(scratch.parent).encode()
     cx = ctxmod.RunContext(mod.NAME, mod.PROPERTY, seed, tier, scratch, trace)
     try:
         cx.clock = seams.install_common(seed)
